@@ -36,8 +36,9 @@ def _ostr(msg, key, allow_null=False):
 
 def encode_cfg(cfg, exp, period, t0):
     blur = "_" if cfg.get("blur") is None else str(cfg["blur"] * 8)
-    return "CFG %d %d %s %d %d %d" % (1 if cfg.get("allow_list", True) else 0,
-                                      1 if cfg.get("usage") else 0, blur, exp, period, t0)
+    return "CFG %d %d %s %d %d %d %s %s %s" % (1 if cfg.get("allow_list", True) else 0,
+                                               1 if cfg.get("usage") else 0, blur, exp, period, t0,
+                                               shex(cfg.get("motd")), shex(cfg.get("advertise")), shex(cfg.get("signal_error")))
 
 
 def encode_base(ev, oracle):
@@ -91,6 +92,36 @@ def encode_base(ev, oracle):
                 draw, choice] + draws
         return " ".join(toks)
     raise ValueError(k)
+
+
+def project_cmd(msg):
+    """the message as the model's `command` record sees it (Render.r_cmd): the 11 fields in record order,
+    strings hex-encoded; unknown extra keys dropped"""
+    def hx(s):
+        return None if s is None else binascii.hexlify(s.encode("utf-8")).decode("ascii")
+    try:
+        if "type" not in msg:
+            ty = None
+        elif msg["type"] in KNOWN_TYPES:
+            ty = msg["type"]
+        else:
+            ty = "unknown"
+        ping = None
+        if "ping" in msg:
+            if not isinstance(msg["ping"], int) or isinstance(msg["ping"], bool):
+                raise OutOfDomain("ping")
+            ping = msg["ping"]
+        cv = None
+        if "client_version" in msg:
+            c = msg["client_version"]
+            if not (isinstance(c, (list, tuple)) and len(c) >= 2 and all(x is None or isinstance(x, str) for x in c[:2])):
+                raise OutOfDomain("client_version")
+            cv = [hx(c[0]), hx(c[1])]
+        return [ty, hx(_ostr(msg, "id", True)), hx(_ostr(msg, "appid")), hx(_ostr(msg, "side")),
+                hx(_ostr(msg, "nameplate")), hx(_ostr(msg, "mailbox")), hx(_ostr(msg, "phase")),
+                hx(_ostr(msg, "body")), hx(_ostr(msg, "mood", True)), ping, cv]
+    except OutOfDomain as e:
+        return {"out_of_domain": str(e)}
 
 
 def encode_event(ev, oracle):
